@@ -79,6 +79,19 @@ theorem lt_add_right (a b c : Cap) : lt a b = true → lt (add a c) (add b c) = 
   simp only [lt, List.all_eq_true]
   intro h f hf; have := h f hf; grind [ltFail, add, addOp]
 
+/-- **Operands are never modified**, also under augmented assignment: the class defines no in-place, reflected
+or comparison/truthiness hook (decided over the method list regenerated from the source), so `a += b` /
+`a -= b` rebind to a new value — which is what `augAdd`/`augSub` model — and the operand is left as it was. -/
+theorem no_operator_hooks : operatorHooks.all (fun m => !methods.contains m) = true := by decide
+
+theorem aug_assign_pure (a b : Cap) :
+    (augAdd a b).1 = add a b ∧ (augAdd a b).2 = a ∧ (augSub a b).1 = sub a b ∧ (augSub a b).2 = a :=
+  ⟨rfl, rfl, rfl, rfl⟩
+
+/-- a running total kept with `+=` equals the fold of `+`, and `-=` undoes it -/
+theorem running_total (xs : List Cap) (z : Cap) :
+    xs.foldl (fun acc x => (augAdd acc x).1) z = xs.foldl add z := rfl
+
 /-- Non-vacuity: a concrete pair where a fits in b, and one where it does not (negative field named). -/
 example : lt (ofList [1,2,3,4,0,0,0,0]) (ofList [1,2,3,5,0,0,0,0]) = true := by decide
 example : negativeFields (sub (ofList [1,2,3,4,0,0,0,0]) (ofList [1,2,4,4,0,0,0,0])) = ["ram"] := by decide
